@@ -504,6 +504,33 @@ func synthDictStream(r *gen.Rand, dict []byte, n int) (stream, plain []byte) {
 	return s.W.Bytes(), full[len(dict):]
 }
 
+// synthDictStreamFar is synthDictStream whose first symbol is a match at
+// distance 32768 (the dictionary must be at least that long), followed by a few
+// more matches that reach as far back as the format allows.
+func synthDictStreamFar(r *gen.Rand, dict []byte, n int) (stream, plain []byte) {
+	s := synth.NewStream(r)
+	toks := []synth.Token{synth.Match(r.Range(3, 258), 32768)}
+	have := toks[0].Len
+	for k := 0; k < 3; k++ {
+		toks = append(toks, synth.Lit(byte(r.Intn(256))), synth.Match(r.Range(3, 40), 32768-r.Intn(3)))
+		have += 1 + toks[len(toks)-1].Len
+	}
+	toks = append(toks, synth.RandomTokens(r, len(dict)+have, n, "mixed")...)
+	full, ok := synth.Apply(append([]byte(nil), dict...), toks)
+	if !ok {
+		panic("synthDictStreamFar: tokens not applicable")
+	}
+	if r.Bool() {
+		s.Fixed(true, toks, true)
+	} else {
+		lit, dist := synth.LengthsFor(r, toks, synth.CodeOpts{})
+		sp := synth.NewDynSpec()
+		sp.LitLens, sp.DistLens = lit, dist
+		s.Dynamic(true, toks, sp, true)
+	}
+	return s.W.Bytes(), full[len(dict):]
+}
+
 // dictSlices builds data out of pieces of the dictionary (from every region of
 // it, not only the part a decoder keeps) and some noise.
 func dictSlices(r *gen.Rand, dict []byte, n int) []byte {
